@@ -8,12 +8,13 @@ from vlib import hx, unhx
 from checks import c04
 
 KEYS = {"aaaaaaaa-0000-0000-0000-000000000001": "1a" * 32, "bbbbbbbb-0000-0000-0000-000000000002": "2b" * 32,
-        "cccccccc-0000-0000-0000-000000000003": "3c" * 32}
+        "cccccccc-0000-0000-0000-000000000003": "3c" * 48}       # one secret longer than 256 bits: the MAC is under all of it
 K1, K2, K3 = list(KEYS)
 # a latched key whose secret is not hex text (a damaged key file read back): nothing can be signed with it
 KBAD = "dddddddd-0000-0000-0000-00000000000d"
 KEYS_ALL = dict(KEYS, **{KBAD: "not-hex-" + "z" * 56})
 ROUTES = ["proxy", "goalstate", "sharedconfig", "imds"]
+SPOOF = ("Azure-HMAC-SHA256 %s %s" % (K2, "ab" * 32)).encode()
 
 
 def do_sign(stack, callers, route, token):
@@ -22,7 +23,9 @@ def do_sign(stack, callers, route, token):
     if route == "proxy":
         c = callers.caller(0, "curl", True)
         conn = stack.connect(audit=(0, c["pid"], 1, e2e.IMDS[0], e2e.IMDS[1]))
-        conn.request(e2e.build_request("GET", "/metadata/instance?tok=" + token, [(b"Host", b"h")]), b"GET", 5.0)
+        # the client brings an authorization header of its own, naming a key the agent may hold with a MAC that is not that key's
+        conn.request(e2e.build_request("GET", "/metadata/instance?tok=" + token,
+                                       [(b"Host", b"h"), (b"x-ms-azure-host-authorization", SPOOF)]), b"GET", 5.0)
         conn.close()
     elif route == "imds":
         stack.ctl(f"sign imds {e2e.IMDS[0]} {e2e.IMDS[1]}")
@@ -38,6 +41,12 @@ def verify(rec):
     if not au:
         return None, None, None
     parts = au[0].decode("latin-1").split(" ")
+    if len(au) == 1 and au[0] == SPOOF:
+        # the agent did not sign (no usable key): the client's own header is relayed as the client sent it - not a header the agent
+        # emits (C05 scopes its removal to requests the proxy signs)
+        return None, None, None
+    if len(au) > 1:
+        return parts, False, "%d authorization headers" % len(au)
     if len(parts) != 3:
         return parts, False, "malformed"
     target = rec["target"].decode("latin-1")
